@@ -42,6 +42,15 @@ CHECKS = {
         note='Objects are located positionally from the abstract model the document was written from. The key-holder clause is read through '
              'get_references_for_sql (the anchored mechanism). One recorded finding (dotted enum names).',
         design='DESIGN.md §3 C05'),
+    'C09': dict(
+        level='model_checking', technique='explicit-state BFS over operation histories on real Database/Table objects, reference model in lock-step, dedup by implementation-state hash',
+        text='Three colliding universes (tables with twins / name, alias and alias-equals-key clashes / renames + references; enums, groups, sticky notes, projects, unsupported type; one table with '
+             'columns and indexes addressed by object, twin, position and bad position) are explored breadth-first to the depth bound; after every operation the outcome class and every observer '
+             '(iteration, positional and name lookup for current and stale names, kind lists, back-pointers of every universe object) must agree with the model, and a rejected operation must leave the '
+             'implementation state hash unchanged.',
+        note='The reference model (verif/props/c09.py Model/TModel) is the statement turned into lists and a name set. Deleting via an equal twin may be rejected or remove the equal object (model follows the implementation). '
+             'Renames producing two contained tables with one name are outside the space.',
+        design='DESIGN.md §3 C09'),
     'C10': dict(
         level='model_checking', technique='explicit-state exploration of edit histories on live objects (depth 2 all, depth 3 over the cache-sensitive edits), lock-step abstract model, differential oracle against a fresh build, element by element',
         text='Every edit history up to the bound over a 65-edit alphabet (renames, type changes, flags, defaults, notes, aliases, reference kind/inline/name/actions, add column/index/item, delete index) '
